@@ -16,6 +16,8 @@ import (
 	"github.com/goblimey/go-ntrip/rtcm/utils"
 
 	"github.com/goblimey/go-crc24q/crc24q"
+
+	"github.com/goblimey/go-ntrip/verifhook"
 )
 
 // The rtcm package contains logic to read and decode and display RTCM3
@@ -193,11 +195,13 @@ func (rtcmHandler *Handler) HandleMessages(ch_in chan byte, ch_out chan Message)
 		message, err := rtcmHandler.FetchNextMessageFrame(pb)
 		if err != nil && err.Error() == "done" {
 			// There is no more input.
+			verifhook.At("framer.close")
 			close(ch_out)
 			return
 		}
 
 		// Send the message to the output channel
+		verifhook.At("framer.send", message.MessageType)
 		ch_out <- *message
 	}
 }
